@@ -64,13 +64,46 @@ package rib
 //@ assigns nothing
 //@ props C08 C07 C11:lock
 
+// tablesNonNil: every installed entry is a non-nil object.
+//@ pred tablesNonNil(A *aft.Afts) = (forall k in dom(A.Ipv4Entry) :: A.Ipv4Entry[k] != nil) && (forall k in dom(A.Ipv6Entry) :: A.Ipv6Entry[k] != nil)
+//@   && (forall k in dom(A.LabelEntry) :: A.LabelEntry[k] != nil) && (forall k in dom(A.NextHopGroup) :: A.NextHopGroup[k] != nil)
+//@   && (forall k in dom(A.NextHop) :: A.NextHop[k] != nil)
+//@ pred emptied(A *aft.Afts) = dom(A.Ipv4Entry) == emptyset(string) && dom(A.Ipv6Entry) == emptyset(string)
+//@   && dom(A.LabelEntry) == emptyset(aft.Afts_LabelEntry_Label_Union) && dom(A.NextHopGroup) == emptyset(uint64) && dom(A.NextHop) == emptyset(uint64)
+//@ pred listed(nis []string, n Int, k string) = exists i in 0..n :: nis[i] == k
+//@ pred distinctNames(nis []string) = forall i in 0..len(nis), j in 0..len(nis) :: i != j ==> nis[i] != nis[j]
+//@ pred allTablesNonNil(r *RIB) = forall k in dom(r.niRIB) :: tablesNonNil(r.niRIB[k].r.Afts)
+
+//@ inline RIB.Flush$1
+
 //@ unit RIB.Flush
-//@ requires[holders] holdersNonNil(r)
-//@ ensures[holders] holdersNonNil(r)
-//@ requires r != nil
+//@ requires holdersWF(r) && allTablesNonNil(r) && ribQuiet(r) && unixTS != nil
 //@ requires[known] forall i in 0..len(networkInstances) :: networkInstances[i] in dom(r.niRIB)
+//@ requires[distinct] distinctNames(networkInstances)
 //@ ensures[ok] result0 == nil
-//@ assigns ribState
+//@ ensures[emptied] forall i in 0..len(networkInstances) :: emptied(r.niRIB[networkInstances[i]].r.Afts)
+//@ ensures[others-untouched] forall k in dom(r.niRIB) :: !listed(networkInstances, len(networkInstances), k) ==> keptAll(r.niRIB[k].r.Afts)
+//@ ensures[rib-wf] holdersWF(r) && allTablesNonNil(r) && holdersNonNil(r)
+//@ ensures[held-untouched] dom(r.pendingEntries) == old(dom(r.pendingEntries))
+//@ loop 1 at "range networkInstances" invariant len(errs) == 0 && holdersWF(r) && allTablesNonNil(r)
+//@ loop 1 invariant forall i in 0..loopi :: emptied(r.niRIB[networkInstances[i]].r.Afts)
+//@ loop 1 invariant forall k in dom(r.niRIB) :: !listed(networkInstances, loopi, k) ==> keptAll(r.niRIB[k].r.Afts)
+//@ loop 1 invariant forall k in dom(r.niRIB) :: held(r.niRIB[k].mu) == ite(listed(networkInstances, loopi, k), 2, 0)
+//@ loop 1 invariant held(r.nrMu) == 0 && nolocks(niRefCounter.mu) && dom(r.pendingEntries) == old(dom(r.pendingEntries)) && alldeferred(RIBHolder.mu)
+//@ loop 2 at "range niR.r.Afts.Ipv4Entry" invariant len(errs) == 0 && holdersWF(r) && allTablesNonNil(r) && registered(r, niR) && (forall k in visited :: !(k in dom(niR.r.Afts.Ipv4Entry)))
+//@ loop 3 at "range niR.r.Afts.Ipv6Entry" invariant len(errs) == 0 && holdersWF(r) && allTablesNonNil(r) && registered(r, niR) && (forall k in visited :: !(k in dom(niR.r.Afts.Ipv6Entry)))
+//@ loop 3 invariant dom(niR.r.Afts.Ipv4Entry) == emptyset(string)
+//@ loop 4 at "range niR.r.Afts.LabelEntry" invariant len(errs) == 0 && holdersWF(r) && allTablesNonNil(r) && registered(r, niR) && (forall k in visited :: !(k in dom(niR.r.Afts.LabelEntry)))
+//@ loop 4 invariant dom(niR.r.Afts.Ipv4Entry) == emptyset(string) && dom(niR.r.Afts.Ipv6Entry) == emptyset(string)
+//@ loop 5 at "range niR.r.Afts.NextHopGroup" invariant len(errs) == 0 && holdersWF(r) && allTablesNonNil(r) && registered(r, niR)
+//@ loop 5 invariant dom(niR.r.Afts.Ipv4Entry) == emptyset(string) && dom(niR.r.Afts.Ipv6Entry) == emptyset(string) && dom(niR.r.Afts.LabelEntry) == emptyset(aft.Afts_LabelEntry_Label_Union)
+//@ loop 6 at "range backupNHGs" invariant len(errs) == 0 && holdersWF(r) && allTablesNonNil(r) && registered(r, niR)
+//@ loop 6 invariant dom(niR.r.Afts.Ipv4Entry) == emptyset(string) && dom(niR.r.Afts.Ipv6Entry) == emptyset(string) && dom(niR.r.Afts.LabelEntry) == emptyset(aft.Afts_LabelEntry_Label_Union)
+//@ loop 7 at "range niR.r.Afts.NextHopGroup" invariant len(errs) == 0 && holdersWF(r) && allTablesNonNil(r) && registered(r, niR) && (forall k in visited :: !(k in dom(niR.r.Afts.NextHopGroup)))
+//@ loop 7 invariant dom(niR.r.Afts.Ipv4Entry) == emptyset(string) && dom(niR.r.Afts.Ipv6Entry) == emptyset(string) && dom(niR.r.Afts.LabelEntry) == emptyset(aft.Afts_LabelEntry_Label_Union)
+//@ loop 8 at "range niR.r.Afts.NextHop" invariant len(errs) == 0 && holdersWF(r) && allTablesNonNil(r) && registered(r, niR) && (forall k in visited :: !(k in dom(niR.r.Afts.NextHop)))
+//@ loop 8 invariant dom(niR.r.Afts.Ipv4Entry) == emptyset(string) && dom(niR.r.Afts.Ipv6Entry) == emptyset(string) && dom(niR.r.Afts.LabelEntry) == emptyset(aft.Afts_LabelEntry_Label_Union) && dom(niR.r.Afts.NextHopGroup) == emptyset(uint64)
+//@ assigns ribState, hookCount
 //@ props C08 C03 C12:safety
 
 //@ guarded_by niRefCounter.mu: NextHop, NextHopGroup
@@ -590,6 +623,7 @@ package rib
 //@ pred holdersSeparate(r *RIB) = forall a in dom(r.niRIB), b in dom(r.niRIB) :: a != b ==> r.niRIB[a] != r.niRIB[b] && r.niRIB[a].refCounts != r.niRIB[b].refCounts
 //@   && r.niRIB[a].refCounts.NextHopGroup != r.niRIB[b].refCounts.NextHopGroup && r.niRIB[a].refCounts.NextHop != r.niRIB[b].refCounts.NextHop
 //@   && r.niRIB[a].refCounts.NextHopGroup != r.niRIB[b].refCounts.NextHop && r.niRIB[a].r != r.niRIB[b].r && r.niRIB[a].r.Afts != r.niRIB[b].r.Afts
+//@   && separateAfts(r.niRIB[a].r.Afts, r.niRIB[b].r.Afts)
 //@ pred registered(r *RIB, h *RIBHolder) = h != nil && h.name in dom(r.niRIB) && r.niRIB[h.name] == h
 // candWF: the candidate built by candidateRIB keys every list entry by the entry's own key leaf.
 //@ pred candWF(C *aft.Afts) = (forall k in dom(C.NextHopGroup) :: C.NextHopGroup[k] != nil && (forall i in dom(C.NextHopGroup[k].NextHop) :: C.NextHopGroup[k].NextHop[i] != nil && C.NextHopGroup[k].NextHop[i].GetIndex() == i))
